@@ -424,9 +424,53 @@ theorem C03_bit_iterator_laws (b o k s : Int) (hs : 0 < s) :
     rw [C03_kernel_bit_distance_to]; omega
   rw [this, Int.mul_tdiv_cancel _ (by omega)]
 
+/-! ### raw pointers and planar iterators (pixel_iterator.hpp, planar_pixel_iterator.hpp) -/
+
+theorem C03_kernel_ptr_advanced (p d : Int) : ptr_memunit_advanced p d = p + d := by unfold ptr_memunit_advanced; kernel_eq
+theorem C03_kernel_ptr_advance (p d : Int) : ptr_memunit_advance p d = p + d := by unfold ptr_memunit_advance; kernel_eq
+theorem C03_kernel_ptr_distance (p q : Int) : ptr_memunit_distance p q = q - p := by unfold ptr_memunit_distance; kernel_eq
+
+/-- `planar_pixel_iterator::operator[](d)` hands `d * sizeof(channel_t)` bytes to `memunit_advanced_ref` (the product is
+    formed in `std::size_t` and converted back to `ptrdiff_t`: exact while `|d * sizeof(channel_t)| < 2^63`) -/
+theorem C03_kernel_planar_index (d c : Int) (hc : 0 ≤ c) (hc' : c < 18446744073709551616)
+    (h0 : -9223372036854775808 ≤ d * c) (h1 : d * c < 9223372036854775808) :
+    planar_index_bytes d c = d * c := by
+  have key : ∀ x : Int, (x % 18446744073709551616 + 9223372036854775808) % 18446744073709551616 - 9223372036854775808
+      = (x + 9223372036854775808) % 18446744073709551616 - 9223372036854775808 := by intro x; omega
+  have e1 : ∀ x y : Int, ((x % 18446744073709551616) * y) % 18446744073709551616 = (x * y) % 18446744073709551616 := by
+    intro x y; rw [Int.mul_emod, Int.emod_emod_of_dvd _ (dvd_refl _), ← Int.mul_emod]
+  have e2 : ∀ x y : Int, (y * (x % 18446744073709551616)) % 18446744073709551616 = (x * y) % 18446744073709551616 := by
+    intro x y; rw [Int.mul_comm, e1]
+  have fin : (d * c + 9223372036854775808) % 18446744073709551616 - 9223372036854775808 = d * c := by omega
+  unfold planar_index_bytes
+  first
+    | (rw [key, e1]; exact fin)
+    | (rw [key, e2]; exact fin)
+    | (simp only [key, e1, e2, Int.mul_comm c d]; exact fin)
+
+theorem C03_kernel_planar_distance_to (i t : Int) : planar_distance_to i t = i - t := by unfold planar_distance_to; kernel_eq
+theorem C03_kernel_planar_lt (a b : Int) : planar_lt a b = if a < b then 1 else 0 := by unfold planar_lt; kernel_eq
+theorem C03_kernel_planar_equal (a b : Int) : planar_equal a b = if a = b then 1 else 0 := by unfold planar_equal; kernel_eq
+
+example : planar_index_bytes (-3) 2 = -6 ∧ planar_index_bytes 5 4 = 20 := by decide
+
+/-- **`planar_pixel_iterator::operator[]`**: `it[d]` addresses EVERY plane `d * sizeof(channel_t)` bytes after `it`'s pointer
+    into that plane -- the same pixel as `*(it + d)` -/
+theorem C03_planar_index (c : Int) (ps : List Int) (d : Int) (hc : 0 < c) (hc' : c < 18446744073709551616)
+    (h0 : -9223372036854775808 ≤ d * c) (h1 : d * c < 9223372036854775808) :
+    planarIndex c ps d = ps.map (fun p => p + d * c) ∧ planarIndex c ps d = planarAdvance c ps d := by
+  have e : planarIndex c ps d = ps.map (fun p => p + d * c) := by
+    unfold planarIndex
+    simp only [C03_kernel_ptr_advanced, C03_kernel_planar_index d c (by omega) hc' h0 h1]
+  exact ⟨e, e⟩
+
+/-- rgb16 planar: `it[3]` is 6 bytes further in each of the three planes -/
+example : planarIndex 2 [100, 4196, 8292] 3 = [106, 4202, 8298] ∧ planarIndex 2 [100, 4196, 8292] (-2) = planarAdvance 2 [100, 4196, 8292] (-2) := by decide
+
 /-! ## Part B -- the model of image_view's navigation paths -/
 
-/-- `memunit_advance` is exact for every iterator kind (pointer add; `bit_advance` for bit iterators) -/
+/-- `memunit_advance` is exact for every iterator kind (pointer add; every plane pointer for planar iterators;
+    `bit_advance` for bit iterators) -/
 theorem C03_memAdvance (k : Kind) (p d : Int) : memAdvance k p d = p + d := by
   unfold memAdvance
   by_cases hk : k.bit
@@ -435,27 +479,71 @@ theorem C03_memAdvance (k : Kind) (p d : Int) : memAdvance k p d = p + d := by
     have h1 := Int.emod_lt_of_pos p (show (0 : Int) < 8 by decide)
     obtain ⟨_, _, a2⟩ := C03_bit_advance_spec (p / 8) (p % 8) d
     omega
-  · simp [hk]
+  · by_cases hp : k.planar <;> simp [hk, hp, C03_kernel_ptr_advanced, C03_kernel_ptr_advance]
 
-private theorem xInc_eq (k : Kind) (xs p : Int) (hb : k.bit = true → k.xstep = false → xs = k.pixbits ∧ 0 ≤ k.pixbits) :
-    xInc k xs p = p + xs := by
+private theorem memDistance_eq (k : Kind) (a b : Int) : memDistance k a b = b - a := by
+  unfold memDistance
+  by_cases hk : k.bit
+  · simp only [hk, if_true, C03_kernel_bit_distance_to]; omega
+  · simp [hk, C03_kernel_ptr_distance]
+
+private theorem xAdv_eq (k : Kind) (xs p n : Int) (hk : k.Natural xs) : xAdv k xs p n = p + n * xs := by
+  unfold xAdv
+  by_cases h : (k.bit && !k.xstep) = true
+  · have hh : k.bit = true ∧ k.xstep = false := by simpa using h
+    obtain ⟨e, _⟩ := hk.1 hh.1 hh.2
+    simp only [h, if_true, C03_memAdvance, C03_kernel_bitit_advance_bits, e]
+  · by_cases h2 : (k.planar && !k.xstep) = true
+    · have hh : k.planar = true ∧ k.xstep = false := by simpa using h2
+      obtain ⟨_, e, _⟩ := hk.2 hh.1 hh.2
+      simp only [h, h2, if_true, e]; simp
+    · simp only [h, h2]; simp [C03_memAdvance, C03_kernel_step_advance]
+
+private theorem xIdx_eq (k : Kind) (xs p n : Int) (hk : k.Natural xs)
+    (hb : k.planar = true → k.xstep = false →
+      k.chan < 18446744073709551616 ∧ -9223372036854775808 ≤ n * k.chan ∧ n * k.chan < 9223372036854775808) :
+    xIdx k xs p n = p + n * xs := by
+  unfold xIdx
+  by_cases h2 : (k.planar && !k.xstep) = true
+  · have hh : k.planar = true ∧ k.xstep = false := by simpa using h2
+    obtain ⟨_, e, hpos⟩ := hk.2 hh.1 hh.2
+    obtain ⟨hc, h0, h1⟩ := hb hh.1 hh.2
+    simp only [h2, if_true, C03_kernel_ptr_advanced, C03_kernel_planar_index n k.chan (by omega) hc h0 h1, e]
+  · simp only [h2]; exact xAdv_eq k xs p n hk
+
+private theorem xInc_eq (k : Kind) (xs p : Int) (hk : k.Natural xs) : xInc k xs p = p + xs := by
   unfold xInc
   by_cases h : (k.bit && !k.xstep) = true
   · simp only [h, if_true]
     have hh : k.bit = true ∧ k.xstep = false := by simpa using h
-    obtain ⟨e, hp⟩ := hb hh.1 hh.2
+    obtain ⟨e, hp⟩ := hk.1 hh.1 hh.2
     have h0 := Int.emod_nonneg p (show (8 : Int) ≠ 0 by decide)
     obtain ⟨_, _, a2⟩ := C03_bit_increment_spec (p / 8) (p % 8) k.pixbits h0 hp
     rw [e]; omega
-  · simp only [h]; simp [C03_memAdvance, C03_kernel_step_advance]
+  · by_cases h2 : (k.planar && !k.xstep) = true
+    · have hh : k.planar = true ∧ k.xstep = false := by simpa using h2
+      obtain ⟨_, e, _⟩ := hk.2 hh.1 hh.2
+      simp only [h, h2, if_true, e]; simp
+    · simp only [h, h2]; simp [C03_memAdvance, C03_kernel_step_advance]
+
+private theorem xDec_eq (k : Kind) (xs p : Int) (hk : k.Natural xs) : xDec k xs p = p - xs := by
+  unfold xDec
+  by_cases h2 : (k.planar && !k.xstep) = true
+  · have hh : k.planar = true ∧ k.xstep = false := by simpa using h2
+    obtain ⟨_, e, _⟩ := hk.2 hh.1 hh.2
+    simp only [h2, if_true, e]
+  · simp only [h2]; simp [C03_memAdvance, C03_kernel_step_advance]; omega
 
 /-- **all navigation paths agree**, for every iterator kind (pointer, planar, packed, step,
-    position and bit-aligned iterators).  For every view record (any base, any steps of either sign, padded
+    position and bit-aligned iterators; `hk`: a raw bit / planar x-iterator steps by the pixel's bit size / one channel;
+    `hov`: `x * sizeof(channel_t)` fits `ptrdiff_t`, needed by planar_pixel_iterator::operator[] only).
+    For every view record (any base, any steps of either sign, padded
     rows), every in-range (x,y) and every reference position (cx,cy) of the cached location:
     `view(x,y)`, `row_begin(y)[x]`, `col_begin(x)[y]`, `begin()[y*w+x]`, `at(x,y)`,
     `rbegin()[w*h-1-(y*w+x)]`, `xy_at(x,y)` and `xy_at(cx,cy)[cache_location(x-cx,y-cy)]`
     all reach `base + y*ys + x*xs`. -/
-theorem C03_paths_agree (k : Kind) (v : View) (x y cx cy : Int) (hr : v.InRange x y) :
+theorem C03_paths_agree (k : Kind) (v : View) (x y cx cy : Int) (hr : v.InRange x y) (hk : k.Natural v.xs)
+    (hov : k.planar = true → k.xstep = false → k.chan < 18446744073709551616 ∧ x * k.chan < 9223372036854775808) :
     pathCall k v x y = v.addr x y ∧ pathRow k v x y = v.addr x y ∧ pathCol k v x y = v.addr x y
     ∧ pathBegin k v x y = v.addr x y ∧ pathAt k v x y = v.addr x y ∧ pathRbegin k v x y = v.addr x y
     ∧ pathCached k v cx cy x y = v.addr x y := by
@@ -463,9 +551,16 @@ theorem C03_paths_agree (k : Kind) (v : View) (x y cx cy : Int) (hr : v.InRange 
   have hw : 0 < v.w := by omega
   have hw0 : v.w ≠ 0 := by omega
   have mA := C03_memAdvance k
+  have xD := fun p => xDec_eq k v.xs p hk
   refine ⟨?_, ?_, ?_, ?_, ?_, ?_, ?_⟩
   · simp only [pathCall, Loc.move, View.loc, mA, C03_kernel_loc_offset, View.addr]; ring
-  · simp only [pathRow, xAdv, Loc.move, View.loc, mA, C03_kernel_loc_offset, C03_kernel_step_advance, View.addr]; ring
+  · have hb : k.planar = true → k.xstep = false →
+        k.chan < 18446744073709551616 ∧ -9223372036854775808 ≤ x * k.chan ∧ x * k.chan < 9223372036854775808 := by
+      intro h1 h2
+      have := (hk.2 h1 h2).2.2
+      have : 0 ≤ x * k.chan := Int.mul_nonneg hx0 (by omega)
+      exact ⟨(hov h1 h2).1, by omega, (hov h1 h2).2⟩
+    simp only [pathRow, xIdx_eq k v.xs _ x hk hb, Loc.move, View.loc, mA, C03_kernel_loc_offset, View.addr]; ring
   · simp only [pathCol, yAdv, Loc.move, View.loc, mA, C03_kernel_loc_offset, C03_kernel_step_advance, View.addr]; ring
   · have e := C03_advance_closed (y * v.w + x) 0 0 v.w 0 0 x y hw (by omega) hw hx0 hx1 (by ring)
     simp only [pathBegin, It.advance, View.begin, e, hw0, if_false, Loc.move, View.loc, mA, C03_kernel_loc_offset, View.addr]; ring
@@ -480,7 +575,7 @@ theorem C03_paths_agree (k : Kind) (v : View) (x y cx cy : Int) (hr : v.InRange 
             C03_advance_closed (-1) (x + 1) y v.w 0 0 x y hw (by omega) hc hx0 hx1 (by ring)]
         ext <;> simp only [] <;> omega
       simp only [pathRbegin, View.endIt, View.size, It.advance, It.dec, View.begin, e1, e2, hw0, if_false, Loc.move,
-        View.loc, mA, C03_kernel_loc_offset, View.addr, xDec, C03_kernel_step_advance, hd, and_self, if_true]
+        View.loc, mA, C03_kernel_loc_offset, View.addr, xD, hd, and_self, if_true]
       ring
     · have hxw : x = v.w - 1 := by omega
       have e2 := C03_advance_closed (-(v.w * v.h - 1 - (y * v.w + x))) 0 v.h v.w 0 0 0 (y + 1) hw (by omega) hw (by omega) hw
@@ -491,28 +586,27 @@ theorem C03_paths_agree (k : Kind) (v : View) (x y cx cy : Int) (hr : v.InRange 
         ext <;> simp only [] <;> omega
       have hne : ¬ (v.w - 1 = -1 ∧ (-1 : Int) = 0) := by omega
       simp only [pathRbegin, View.endIt, View.size, It.advance, It.dec, View.begin, e1, e2, hw0, if_false, Loc.move,
-        View.loc, mA, C03_kernel_loc_offset, View.addr, xDec, C03_kernel_step_advance, hd, hne]
+        View.loc, mA, C03_kernel_loc_offset, View.addr, xD, hd, hne]
       subst hxw; ring
   · simp only [pathCached, Loc.move, View.loc, mA, C03_kernel_loc_offset, View.addr]; ring
 
 /-- non-vacuity: a 3x2 view with padded rows (row stride 16, pixel 4 bytes) flipped left-right -/
 example : (Xform.flipLR.apply { base := 0, xs := 4, ys := 16, w := 3, h := 2 }).InRange 2 1
-    ∧ pathRbegin ⟨false, true, 0, false⟩ (Xform.flipLR.apply { base := 0, xs := 4, ys := 16, w := 3, h := 2 }) 2 1 = 16 := by decide
+    ∧ pathRbegin ⟨false, true, 0, false, false, 0⟩ (Xform.flipLR.apply { base := 0, xs := 4, ys := 16, w := 3, h := 2 }) 2 1 = 16 := by decide
 
 /-- a gray-2 view of 5x3 pixels starting at bit 6 with 13-bit rows -/
-example : pathAt ⟨true, false, 2, false⟩ { base := 6, xs := 2, ys := 13, w := 5, h := 3 } 4 2 = 6 + 2 * 13 + 4 * 2 := by decide
+example : pathAt ⟨true, false, 2, false, false, 0⟩ { base := 6, xs := 2, ys := 13, w := 5, h := 3 } 4 2 = 6 + 2 * 13 + 4 * 2 := by decide
 
 /-- **locator move programs**: after any list of `+= / -= point`, `x() += n`, `y() += n`, `++` or `--`
     on either axis iterator, the locator is at `start + Σdy*ys + Σdx*xs` -- i.e. at the pixel
     `xy_at(Σdx, Σdy)` reaches in one step (induction on the list; every iterator kind: for a raw bit
     iterator the x step is the pixel's bit size) -/
-theorem C03_moves (k : Kind) (l : Loc) (ms : List Move)
-    (hb : k.bit = true → k.xstep = false → l.xs = k.pixbits ∧ 0 ≤ k.pixbits) :
+theorem C03_moves (k : Kind) (l : Loc) (ms : List Move) (hb : k.Natural l.xs) :
     (runMoves k l ms).pos = l.pos + (sumMoves ms).2 * l.ys + (sumMoves ms).1 * l.xs
     ∧ (runMoves k l ms).xs = l.xs ∧ (runMoves k l ms).ys = l.ys
     ∧ (runMoves k l ms).pos = (l.move k (sumMoves ms).1 (sumMoves ms).2).pos := by
   have mA := C03_memAdvance k
-  have main : ∀ (ms : List Move) (l : Loc), (k.bit = true → k.xstep = false → l.xs = k.pixbits ∧ 0 ≤ k.pixbits) →
+  have main : ∀ (ms : List Move) (l : Loc), k.Natural l.xs →
       (runMoves k l ms).pos = l.pos + (sumMoves ms).2 * l.ys + (sumMoves ms).1 * l.xs
       ∧ (runMoves k l ms).xs = l.xs ∧ (runMoves k l ms).ys = l.ys := by
     intro ms
@@ -521,19 +615,136 @@ theorem C03_moves (k : Kind) (l : Loc) (ms : List Move)
     | cons m ms ih =>
       intro l hl
       have hx : ∀ p, xInc k l.xs p = p + l.xs := fun p => xInc_eq k l.xs p hl
+      have hxd : ∀ p, xDec k l.xs p = p - l.xs := fun p => xDec_eq k l.xs p hl
+      have hxa : ∀ p n, xAdv k l.xs p n = p + n * l.xs := fun p n => xAdv_eq k l.xs p n hl
       have hxs : (Move.run k l m).xs = l.xs := by cases m <;> rfl
       have h := ih (Move.run k l m) (by rw [hxs]; exact hl)
       simp only [runMoves, List.foldl_cons] at h ⊢
       obtain ⟨h1, h2, h3⟩ := h
       rw [h1, h2, h3]
       cases m <;>
-        simp only [Move.run, Loc.move, xAdv, yAdv, hx, xDec, mA, C03_kernel_loc_offset, C03_kernel_step_advance, sumMoves, Move.delta, and_true] <;>
+        simp only [Move.run, Loc.move, hxa, yAdv, hx, hxd, mA, C03_kernel_loc_offset, C03_kernel_step_advance, sumMoves, Move.delta, and_true] <;>
         ring
   obtain ⟨h1, h2, h3⟩ := main ms l hb
   refine ⟨h1, h2, h3, ?_⟩
   rw [h1]; simp only [Loc.move, mA, C03_kernel_loc_offset]; ring
 
-example : (runMoves ⟨false, false, 0, false⟩ ⟨100, 3, 40⟩ [.add 2 1, .xdec, .yadd (-3), .subm 1 (-1), .xinc]).pos = 100 + (-1) * 40 + 1 * 3
-    ∧ (runMoves ⟨true, false, 6, false⟩ ⟨5, 6, 21⟩ [.xinc, .yinc, .xdec, .add 2 (-1)]).pos = 5 + 0 * 21 + 2 * 6 := by decide
+example : (runMoves ⟨false, false, 0, false, false, 0⟩ ⟨100, 3, 40⟩ [.add 2 1, .xdec, .yadd (-3), .subm 1 (-1), .xinc]).pos = 100 + (-1) * 40 + 1 * 3
+    ∧ (runMoves ⟨true, false, 6, false, false, 0⟩ ⟨5, 6, 21⟩ [.xinc, .yinc, .xdec, .add 2 (-1)]).pos = 5 + 0 * 21 + 2 * 6 := by decide
+
+/-! ### order laws of raw (non-step) x-iterators -/
+
+private theorem facadeCmp_eq (d : Int) :
+    facadeCmp d = [b2i (decide (d > 0)), b2i (decide (d < 0)), b2i (decide (d ≥ 0)), b2i (decide (d ≤ 0))] := by
+  unfold facadeCmp
+  have e1 : (0 > -d) = (d > 0) := propext (by omega)
+  have e2 : (0 < -d) = (d < 0) := propext (by omega)
+  have e3 : (0 ≥ -d) = (d ≥ 0) := propext (by omega)
+  have e4 : (0 ≤ -d) = (d ≤ 0) := propext (by omega)
+  simp only [e1, e2, e3, e4]
+
+private theorem mul_pos_iff' {n s : Int} (hs : 0 < s) : (0 < n * s ↔ 0 < n) ∧ (n * s < 0 ↔ n < 0) ∧ (n * s = 0 ↔ n = 0) := by
+  refine ⟨⟨fun h => ?_, fun h => Int.mul_pos h hs⟩, ⟨fun h => ?_, fun h => ?_⟩, ⟨fun h => ?_, fun h => by rw [h]; simp⟩⟩
+  · by_contra hc; have : n * s ≤ 0 := by nlinarith
+    omega
+  · by_contra hc; have : 0 ≤ n * s := by nlinarith
+    omega
+  · nlinarith
+  · rcases Int.mul_eq_zero.1 h with h | h <;> omega
+
+/-- **order laws of RAW (non-step) x-iterators** -- pixel pointers (built-in comparison), `planar_pixel_iterator` (own
+    `operator<` on the channel-0 pointers, `iterator_facade`'s `> <= >=` through `distance_to`), `bit_aligned_pixel_iterator`
+    (all four through `distance_to = bit_distance / bit_size`): for `jt = it + n` with the iterator's natural step `s > 0`,
+    `it < jt`, `it > jt`, `it <= jt`, `it >= jt` are `n > 0`, `n < 0`, `n ≥ 0`, `n ≤ 0`; `jt - it = n`, `it - jt = -n`; `it == jt ⇔ n = 0`;
+    hence `it < jt ⇔ jt - it > 0` -/
+theorem C03_x_order (k : Kind) (s a n : Int) (hraw : k.xstep = false) (hv : k.virt = false) (hs : 0 < s) (hk : k.Natural s) :
+    itCmp k false s a (xAdv k s a n) = [b2i (decide (n > 0)), b2i (decide (n < 0)), b2i (decide (n ≥ 0)), b2i (decide (n ≤ 0))]
+    ∧ itSub k false s (xAdv k s a n) a = n
+    ∧ itSub k false s a (xAdv k s a n) = -n
+    ∧ (itEq k a (xAdv k s a n) = 1 ↔ n = 0)
+    ∧ ((itCmp k false s a (xAdv k s a n))[0]! = 1 ↔ itSub k false s (xAdv k s a n) a > 0) := by
+  obtain ⟨p1, p2, p3⟩ := @mul_pos_iff' n s hs
+  have hs0 : s ≠ 0 := by omega
+  have eb : a + n * s - a = n * s := by ring
+  have ea : a - (a + n * s) = (-n) * s := by ring
+  have hcmp : itCmp k false s a (a + n * s) = [b2i (decide (n > 0)), b2i (decide (n < 0)), b2i (decide (n ≥ 0)), b2i (decide (n ≤ 0))] := by
+    unfold itCmp xDistanceTo
+    simp only [hv, hraw, Bool.false_eq_true, if_false, Bool.or_self, Bool.not_false, Bool.and_true]
+    by_cases hb : k.bit = true
+    · obtain ⟨e, _⟩ := hk.1 hb hraw
+      simp only [hb, if_true, facadeCmp_eq, memDistance_eq, C03_kernel_bitit_distance, eb, ← e, Int.mul_tdiv_cancel _ hs0]
+    · simp only [Bool.not_eq_true] at hb
+      by_cases hp : k.planar = true
+      · obtain ⟨_, e, _⟩ := hk.2 hp hraw
+        simp only [hb, hp, if_true, if_false, Bool.false_eq_true, facadeCmp_eq, C03_kernel_planar_distance_to, C03_kernel_planar_lt, eb, ← e,
+          Int.mul_tdiv_cancel _ hs0, Int.sub_zero, List.drop_succ_cons, List.drop_zero]
+        congr 1
+        by_cases hn : n > 0
+        · have : a < a + n * s := by omega
+          simp [hn, this, b2i]
+        · have : ¬ a < a + n * s := by omega
+          simp [hn, this, b2i]
+      · simp only [Bool.not_eq_true] at hp
+        simp only [hb, hp, if_false, Bool.false_eq_true]
+        have q1 : (a < a + n * s) = (n > 0) := propext (by omega)
+        have q2 : (a > a + n * s) = (n < 0) := propext (by omega)
+        have q3 : (a ≤ a + n * s) = (n ≥ 0) := propext (by omega)
+        have q4 : (a ≥ a + n * s) = (n ≤ 0) := propext (by omega)
+        simp only [q1, q2, q3, q4]
+  have hsub1 : itSub k false s (a + n * s) a = n := by
+    unfold itSub xDistanceTo
+    simp only [hv, hraw, Bool.false_eq_true, if_false, Bool.not_false, Bool.and_true]
+    by_cases hb : k.bit = true
+    · obtain ⟨e, _⟩ := hk.1 hb hraw
+      simp only [hb, if_true, memDistance_eq, C03_kernel_bitit_distance, ea, ← e, Int.mul_tdiv_cancel _ hs0]; omega
+    · simp only [Bool.not_eq_true] at hb
+      by_cases hp : k.planar = true
+      · obtain ⟨_, e, _⟩ := hk.2 hp hraw
+        simp only [hb, hp, if_true, if_false, Bool.false_eq_true, C03_kernel_planar_distance_to, ea, ← e, Int.mul_tdiv_cancel _ hs0]; omega
+      · simp only [Bool.not_eq_true] at hp
+        simp only [hb, hp, if_false, Bool.false_eq_true, memDistance_eq, C03_kernel_step_difference, ea, Int.mul_tdiv_cancel _ hs0]; omega
+  have hsub2 : itSub k false s a (a + n * s) = -n := by
+    unfold itSub xDistanceTo
+    simp only [hv, hraw, Bool.false_eq_true, if_false, Bool.not_false, Bool.and_true]
+    by_cases hb : k.bit = true
+    · obtain ⟨e, _⟩ := hk.1 hb hraw
+      simp only [hb, if_true, memDistance_eq, C03_kernel_bitit_distance, eb, ← e, Int.mul_tdiv_cancel _ hs0]
+    · simp only [Bool.not_eq_true] at hb
+      by_cases hp : k.planar = true
+      · obtain ⟨_, e, _⟩ := hk.2 hp hraw
+        simp only [hb, hp, if_true, if_false, Bool.false_eq_true, C03_kernel_planar_distance_to, eb, ← e, Int.mul_tdiv_cancel _ hs0]; omega
+      · simp only [Bool.not_eq_true] at hp
+        simp only [hb, hp, if_false, Bool.false_eq_true, memDistance_eq, C03_kernel_step_difference, eb, Int.mul_tdiv_cancel _ hs0]
+  have heq : itEq k a (a + n * s) = 1 ↔ n = 0 := by
+    unfold itEq
+    have q : (a = a + n * s) ↔ n = 0 := by constructor <;> intro h <;> omega
+    by_cases hp : k.planar = true
+    · simp only [hp, hraw, hv, Bool.not_false, Bool.and_self, if_true, C03_kernel_planar_equal]
+      by_cases hn : n = 0
+      · simp [hn]
+      · have : ¬ a = a + n * s := fun h => hn (q.1 h)
+        simp [hn, this]
+    · simp only [hp, Bool.false_and, Bool.false_eq_true, if_false, b2i]
+      by_cases hn : n = 0
+      · simp [hn]
+      · have : ¬ a = a + n * s := fun h => hn (q.1 h)
+        simp [hn, this]
+  rw [xAdv_eq k s a n hk]
+  refine ⟨hcmp, hsub1, hsub2, heq, ?_⟩
+  rw [hcmp, hsub1]
+  by_cases hn : n > 0 <;> simp [hn, b2i]
+
+example : itCmp ⟨false, false, 0, false, true, 2⟩ false 2 100 (xAdv ⟨false, false, 0, false, true, 2⟩ 2 100 (-3)) = [0, 1, 0, 1]
+    ∧ itSub ⟨true, false, 6, false, false, 0⟩ false 6 (xAdv ⟨true, false, 6, false, false, 0⟩ 6 13 5) 13 = 5 := by decide
+
+/-- `bit_aligned_pixel_iterator`, ANY two bit positions (also off the pixel lattice): `it < jt ⇔ jt - it > 0` -/
+theorem C03_bit_order (k : Kind) (s a b : Int) (hb : k.bit = true) (hraw : k.xstep = false) (hv : k.virt = false) :
+    (itCmp k false s a b)[0]! = 1 ↔ itSub k false s b a > 0 := by
+  unfold itCmp itSub xDistanceTo
+  simp only [hv, hraw, hb, Bool.false_eq_true, if_false, if_true, Bool.or_self, Bool.not_false, Bool.and_true, facadeCmp_eq,
+    memDistance_eq, C03_kernel_bitit_distance]
+  have e : a - b = -(b - a) := by ring
+  rw [e, Int.neg_tdiv]
+  by_cases h : (b - a).tdiv k.pixbits > 0 <;> simp [h, b2i]
 
 end GilVerif.Props.C03
